@@ -8,8 +8,18 @@ w=/tmp/vt/confirm.$$
 rm -rf $w; git -C /repo worktree add -q --detach $w HEAD || { echo "NOT-CONFIRMED:worktree"; exit 1; }
 cleanup() { git -C /repo worktree remove --force $w >/dev/null 2>&1; }
 trap cleanup EXIT
-dir=$(grep -m1 -i "belongs in" $d/demo_test.go | sed -E 's/.*[Bb]elongs in:? *//; s/[ (].*//; s#/$##')
-[ -z "$dir" ] && dir=$(python3 -c "import json,os;print(os.path.dirname(json.load(open('$d/meta.json'))['files'][0]))")
+dir=$(python3 - "$d" <<'PY'
+import re,sys,json,os
+d=sys.argv[1]
+src=open(os.path.join(d,'demo_test.go')).read()
+m=re.search(r'[Bb]elongs in[^\n]*?((?:[A-Za-z0-9_.-]+/)+)', src)
+if m: print(m.group(1).rstrip('/'))
+else:
+    m=re.search(r'go test[^\n]*?\./((?:[A-Za-z0-9_.-]+/)+)', src)
+    if m: print(m.group(1).rstrip('/'))
+    else: print(os.path.dirname(json.load(open(os.path.join(d,'meta.json')))['files'][0]))
+PY
+)
 run=$(grep -m1 -oE 'Test[A-Za-z0-9_]+' $d/demo_test.go | head -1)
 pat=$(grep -oE '^func (Test[A-Za-z0-9_]+)' $d/demo_test.go | sed 's/func //' | paste -sd'|')
 cp $d/demo_test.go $w/$dir/zz_seed_demo_test.go
